@@ -314,8 +314,8 @@ def program_strategy():
     # through the cell's bearer and, by path2, through the other bearer
     def step(cell):
         kind = cell[0]
-        reads = [p for p in PATHS[kind] if p not in WRITE_PATHS]
-        if cell[3] in WRITE_PATHS:
+        reads = [p for p in PATHS[kind] if p not in WRITE_PATHS and 'second' not in p]
+        if cell[3] in WRITE_PATHS or 'second' in cell[3]:
             return st.just(cell)
         return st.one_of(st.just(cell), st.just(cell), st.just(cell),
                          st.sampled_from(reads).map(lambda p2: ['pair', cell, p2]))
@@ -821,8 +821,11 @@ async def exec_cell(env, cell, second=None):
     plan2 = None
     if second is not None:
         plan2 = plan_cell(env, second)
-        if plan2['value'] != plan['value'] or plan2['nvalue'] != plan['nvalue']:
-            plan2 = None  # the two paths need different value lengths: not run as a pair
+        if (plan2['value'] != plan['value'] or plan2['nvalue'] != plan['nvalue']
+                or 'second' in path or 'second' in second[3]):
+            # the two paths need different value lengths, or a ranged read that may need follow-up
+            # requests is involved: not run as a pair
+            plan2 = None
     _clear(env)
     _send(env, bearer, plan['req'])
     if plan2 is not None:
